@@ -146,22 +146,20 @@ def run_case(case):
         pairs = [(rates[i], rates[j]) for i in a_idx for j in b_idx if i <= j]
         catalogs = [list(c) for c in space.multisets(list(range(n)), case.get('min_events', 2), case['max_events'])]
         variants = [(0.05, False)] if case['variants'] == 'main' else [(0.01, False), (0.5, False), (0.05, True), (0.01, True)]
-    fcs = {}
-
     def fc_of(r, name):
-        key = (tuple(r), name)
-        if key not in fcs:
-            fcs[key] = fixtures.gridded_forecast(numpy.array(r, dtype=float).reshape(nc, nm), reg, mags, name=name, start=T0, end=T1)
-        return fcs[key]
+        # a FRESH forecast object per state: the calls of one state (T(A,B), T(B,A), binary T both orders, W both orders)
+        # form an explicit history on the same two objects, so a call that corrupts a forecast is seen by the next one,
+        # and the replay of a single state reproduces it
+        return fixtures.gridded_forecast(numpy.array(r, dtype=float).reshape(nc, nm), reg, mags, name=name, start=T0, end=T1)
     cats = {}
     for ra, rb in pairs:
-        fa, fb = fc_of(ra, 'A'), fc_of(rb, 'B')
         for cat_bins in catalogs:
             key = tuple(cat_bins)
             if key not in cats:
                 counts = [cat_bins.count(k) for k in range(n)]
                 cats[key] = fixtures.catalog(fixtures.events_from_counts(numpy.array(counts).reshape(nc, nm), origins, mags), region=reg)
             for alpha, scale in variants:
+                fa, fb = fc_of(ra, 'A'), fc_of(rb, 'B')
                 states += 1
                 div = 10.0 if scale else 1.0
                 na, nb = math.fsum(ra) / div, math.fsum(rb) / div
